@@ -1,5 +1,6 @@
 import RF.Model.Proto
 import RF.Model.Modules
+import RF.Model.ModMacros
 /-!
 Line-protocol operations for the module resolver (C13).
 
@@ -14,9 +15,14 @@ Line-protocol operations for the module resolver (C13).
              decls := <n> , decl*n
              decl  := e , <name hex> , <k> , attr*k                    -- `mod name;`
                     | i , <name hex> , <k> , attr*k , <n> , decl*n     -- `mod name { .. }`
-           so a file without `mod` items is `0`.  The `mod` items found in the branches of a
-           `cfg_if!`/`cfg_match!` are listed in place of the macro call (nested macro calls inside the
-           macro are dropped, as `parse_cfg_if` does).
+                    | m , <shape> , <nb> , (<n> , decl*n)*nb            -- `cfg_if! { if .. { b0 } else .. { b1 } .. }`
+                    | t , <shape> , <nb> , (<n> , decl*n)*nb            -- `cfg_match! { cfg(..) => { a0 } .. }`
+                    | o                                                 -- any other item (fn, use, foo!(), ..)
+                    | j                                                 -- tokens `parse_item` rejects
+             shape := c (well-formed chain) | l (accepted by parse_cfg_if only) | b (rejected by it)
+           so a file without `mod` items is `0`.  Macro calls are sent as they are written: the model
+           (`RF/Model/ModMacros.lean`) decides what the resolver discovers in them (`codeFS`) and what
+           the specification expands them to (`specFS`).
 * `fs`     the tree on disk: `_` (empty) or entries joined by `;`
              entry := <path>:d                      -- a directory (only needed when empty)
                     | <path>:f<skip><gen>:<decls>   -- a file; skip = `#![rustfmt::skip]` 0|1,
@@ -59,13 +65,23 @@ Line-protocol operations for the module resolver (C13).
                                     `formatProject_matches_spec_partial`: both succeed with the same set, or both
                                     report an error (of any class), or the specification says `circular`/`fuel`
                                     (a module cycle: the statement of C13 is silent there)
+  mod.discover <decls>
+        -> <decls of e/i only>       the `mod` items the resolver visits (`discItems`), re-encoded
+  mod.parse_macro <decls: exactly one m or t item>
+        -> cfg_if:<mods> | cfg_match:<mods>     `parse_cfg_if` / `parse_cfg_match` (`parseMacroBody`):
+                                     mods = err | _ | e<name hex> / i<name hex> joined by `,` (the `mod` items returned)
+  mod.expand <decls>
+        -> <decls of e/i only>       the `mod` items of the expansion (`expItems`, specification)
   mod.hyps <fs> <root path>
-        -> plain:<0|1>,closed:<0|1>,unique:<0|1>,probe:<0|1> | err:root
+        -> plain:<0|1>,closed:<0|1>,unique:<0|1>,probe:<0|1>,macros:<0|1> | err:root
                                     are the hypotheses of `resolver_refines_spec_partial` established
-                                    (all four 1 = yes: then `mod.resolve` and `mod.spec` must agree on
+                                    (all five 1 = yes: then `mod.resolve` and `mod.spec` must agree on
                                     success/failure and on the set; otherwise the tree is outside the proved
                                     fragment: cfg_attr(path), a file reached under two ownerships, the
-                                    `exists()` probe of push_inline_mod_directory, or a `..` loop)
+                                    `exists()` probe of push_inline_mod_directory, a `..` loop, or
+                                    (`macros:0`, `sfsTame`) a macro call that is not a well-formed chain,
+                                    has a block that does not parse, or has a macro call directly in a block;
+                                    plain/closed/unique/probe are computed on the expanded tree `specFS`)
   mod.stat <fs> <path>                      -> file | dir | none
   mod.skip <inner_skip> <skip_children> <is_main> <stdin> <ignored> <format_generated> <generated>
         -> 0 | 1                                                  `should_skip_module` (all 0|1)
@@ -106,31 +122,58 @@ def decAttrTok : List String → Option (Attr × List String)
   | [] => none
   | t :: ts => (decAttr t).map (·, ts)
 
-/-- Prefix-form decoder; `fuel` bounds the nesting depth (the token count is enough). -/
-def decDecl : Nat → List String → Option (Decl × List String)
-  | 0, _ => none
-  | fuel + 1, kind :: name :: k :: ts =>
-    match decChars name, k.toNat? with
-    | some name, some k =>
-      match takeN decAttrTok k ts with
-      | none => none
-      | some (attrs, ts') =>
-        if kind == "e" then some (.ext name attrs, ts')
-        else if kind == "i" then
-          match ts' with
-          | n :: ts'' =>
-            match n.toNat? with
-            | none => none
-            | some n =>
-              match takeN (decDecl fuel) n ts'' with
-              | none => none
-              | some (items, rest) => some (.inline name attrs items, rest)
-          | [] => none
-        else none
-    | _, _ => none
-  | _ + 1, _ => none
+def decShape (s : String) : Option MacShape :=
+  if s == "c" then some .chain else if s == "l" then some .loose else if s == "b" then some .broken
+  else none
 
-def decDecls (s : String) : Option (List Decl) :=
+/-- Prefix-form decoder; `fuel` bounds the nesting depth (the token count is enough). -/
+def decDecl : Nat → List String → Option (SItem × List String)
+  | 0, _ => none
+  | _ + 1, [] => none
+  | fuel + 1, kind :: ts0 =>
+    if kind == "o" then some (.other, ts0)
+    else if kind == "j" then some (.junk, ts0)
+    else if kind == "m" || kind == "t" then
+      match ts0 with
+      | sh :: nb :: ts =>
+        match decShape sh, nb.toNat? with
+        | some sh, some nb =>
+          let decBranch : List String → Option (List SItem × List String) := fun ts =>
+            match ts with
+            | n :: ts' =>
+              match n.toNat? with
+              | none => none
+              | some n => takeN (decDecl fuel) n ts'
+            | [] => none
+          match takeN decBranch nb ts with
+          | none => none
+          | some (bs, rest) => some (if kind == "m" then .cfgIf sh bs else .cfgMatch sh bs, rest)
+        | _, _ => none
+      | _ => none
+    else
+      match ts0 with
+      | name :: k :: ts =>
+        match decChars name, k.toNat? with
+        | some name, some k =>
+          match takeN decAttrTok k ts with
+          | none => none
+          | some (attrs, ts') =>
+            if kind == "e" then some (.ext name attrs, ts')
+            else if kind == "i" then
+              match ts' with
+              | n :: ts'' =>
+                match n.toNat? with
+                | none => none
+                | some n =>
+                  match takeN (decDecl fuel) n ts'' with
+                  | none => none
+                  | some (items, rest) => some (.inline name attrs items, rest)
+              | [] => none
+            else none
+        | _, _ => none
+      | _ => none
+
+def decDecls (s : String) : Option (List SItem) :=
   let ts := s.splitOn ","
   match ts with
   | n :: rest =>
@@ -142,7 +185,26 @@ def decDecls (s : String) : Option (List Decl) :=
       | _ => none
   | [] => none
 
-def decEntry (s : String) : Option (Path × Node) :=
+def encAttr : Attr → String
+  | .skip => "s"
+  | .path s => "p" ++ (if s.isEmpty then "-" else encChars s)
+  | .cfgAttrPath s => "c" ++ (if s.isEmpty then "-" else encChars s)
+
+mutual
+def encDeclToks : Decl → List String
+  | .ext n a => ["e", encChars n, toString a.length] ++ a.map encAttr
+  | .inline n a items =>
+    ["i", encChars n, toString a.length] ++ a.map encAttr ++ encDeclsToks items
+def encDeclsBody : List Decl → List String
+  | [] => []
+  | d :: ds => encDeclToks d ++ encDeclsBody ds
+def encDeclsToks : List Decl → List String
+  | ds => toString ds.length :: encDeclsBody ds
+end
+
+def encDecls (ds : List Decl) : String := String.intercalate "," (encDeclsToks ds)
+
+def decEntry (s : String) : Option (Path × SNode) :=
   match s.splitOn ":" with
   | [p, "d"] => (decPath p).map (·, .dir)
   | [p, f, ds] =>
@@ -154,7 +216,7 @@ def decEntry (s : String) : Option (Path × Node) :=
     | _ => none
   | _ => none
 
-def decFS (s : String) : Option FS :=
+def decSFS (s : String) : Option SFS :=
   if s == "_" then some [] else (s.splitOn ";").mapM decEntry
 
 def decPaths (s : String) : Option (List Path) :=
@@ -209,14 +271,24 @@ def decOwn (s : String) : Option Ownership :=
 
 def fuelFor (fs : FS) : Nat := 4 * fs.length + 8
 
+/-- the tree as the resolver sees it -/
+def decFS (s : String) : Option FS := (decSFS s).map codeFS
+/-- the tree after expansion (specification) -/
+def decSpecFS (s : String) : Option FS := (decSFS s).map specFS
+
 /-- `closure false fs rounds S`, stopping at the first round that adds nothing (`expand` only appends new
 contexts, so an unchanged length is a fixed point and all further rounds are the identity): the same list,
-computed in as many rounds as the tree is deep instead of `rounds`. -/
-def closureFix (fs : FS) : Nat → List Ctx → List Ctx
+computed in as many rounds as the tree is deep instead of `rounds`.  It also stops once the list has more than
+`cap` contexts: a tree with a module cycle spelled through `..` has a context per spelling (`a/../b/../a.rs`, ..)
+and their number can double with every round; the list returned then is simply not closed (`closed:0`, the
+hypotheses are "not established", which is always a sound answer: `closedB` is evaluated on the list itself). -/
+def closureFix (fs : FS) (cap : Nat) : Nat → List Ctx → List Ctx
   | 0, S => S
   | n + 1, S =>
     let S' := expand false fs S
-    if S'.length == S.length then S else closureFix fs n S'
+    if S'.length == S.length then S
+    else if S'.length > cap then S'
+    else closureFix fs cap n S'
 
 def mkConfig (skipChildren formatGenerated : Bool) (ignored : List Path) : Config :=
   { skipChildren := skipChildren, formatGeneratedFiles := formatGenerated,
@@ -240,7 +312,7 @@ def handle (op : String) (args : List String) : Option String :=
     let cfg := mkConfig (← decBit sc) (← decBit fg) (← decPaths ign)
     pure (encResult encNameSet (formatProject fs (fuelFor fs) (.file root) cfg))
   | "mod.spec", [fs, root, sc, fg, ign] => do
-    let fs ← decFS fs
+    let fs ← decSpecFS fs
     let root ← decPath root
     let cfg := mkConfig (← decBit sc) (← decBit fg) (← decPaths ign)
     pure (encResult encPathSet (specFormatted fs (fuelFor fs) root cfg))
@@ -250,12 +322,12 @@ def handle (op : String) (args : List String) : Option String :=
     let cfg := mkConfig (← decBit sc) (← decBit fg) (← decPaths ign)
     pure (encResultC encNameSet (formatProject fs (fuelFor fs) (.file root) cfg))
   | "mod.specc", [fs, root, sc, fg, ign] => do
-    let fs ← decFS fs
+    let fs ← decSpecFS fs
     let root ← decPath root
     let cfg := mkConfig (← decBit sc) (← decBit fg) (← decPaths ign)
     pure (encResultC encPathSet (specFormatted fs (fuelFor fs) root cfg))
   | "mod.oracle", [fs, root, sc, fg, ign, impl] => do
-    let fs ← decFS fs
+    let fs ← decSpecFS fs
     let root ← decPath root
     let cfg := mkConfig (← decBit sc) (← decBit fg) (← decPaths ign)
     match specFormatted fs (fuelFor fs) root cfg with
@@ -284,7 +356,7 @@ def handle (op : String) (args : List String) : Option String :=
         (visitCrate fs (fuelFor fs) (.real root) skip items own recursive))
     | _ => pure "err:root"
   | "mod.reachable", [fs, root] => do
-    let fs ← decFS fs
+    let fs ← decSpecFS fs
     let root ← decPath root
     match parseFileAsModule fs root with
     | .ok _ items =>
@@ -295,7 +367,27 @@ def handle (op : String) (args : List String) : Option String :=
     let skip ← decBit skip
     let ds ← decDecls ds
     let cfg := mkConfig false true []
-    pure (encResult encNameSet (formatProject [] 8 (.text skip ds) cfg))
+    pure (encResult encNameSet (formatProject [] 8 (.text skip (discItems ds)) cfg))
+  | "mod.discover", [ds] => do
+    let ds ← decDecls ds
+    pure (encDecls (discItems ds))
+  | "mod.parse_macro", [ds] => do
+    let ds ← decDecls ds
+    let encMod : SItem → String := fun it => match it with
+      | .ext n _ => "e" ++ encChars n
+      | .inline n _ _ => "i" ++ encChars n
+      | _ => "?"
+    let encMods : Option (List SItem) → String := fun r => match r with
+      | none => "err"
+      | some [] => "_"
+      | some ms => String.intercalate "," (ms.map encMod)
+    match ds with
+    | [.cfgIf sh bs] => pure ("cfg_if:" ++ encMods (parseMacroBody sh bs))
+    | [.cfgMatch sh bs] => pure ("cfg_match:" ++ encMods (parseMacroBody sh bs))
+    | _ => none
+  | "mod.expand", [ds] => do
+    let ds ← decDecls ds
+    pure (encDecls (expItems ds))
   | "mod.ownership", [fs, root] => do
     let fs ← decFS fs
     let root ← decPath root
@@ -332,15 +424,16 @@ def handle (op : String) (args : List String) : Option String :=
     | .ok (some k) => pure (encKindRes k)
     | .error k => pure ("err:" ++ encKind k)
   | "mod.hyps", [fs, root] => do
-    let fs ← decFS fs
+    let sfs ← decSFS fs
+    let fs := specFS sfs
     let root ← decPath root
     match parseFileAsModule fs root with
     | .ok _ _ =>
       let own := (toDirectoryOwnership fs root).getD .unownedViaBlock
-      let S := closureFix fs (fuelFor fs) [⟨root, own⟩]
+      let S := closureFix fs (8 * fs.length + 16) (fuelFor fs) [⟨root, own⟩]
       let b := fun (x : Bool) => if x then "1" else "0"
       let closed := decide ((⟨root, own⟩ : Ctx) ∈ S) && closedB false fs S
-      pure s!"plain:{b (fsPlainB fs)},closed:{b closed},unique:{b (uniqueB S)},probe:{b (probeAgreesB fs S)}"
+      pure s!"plain:{b (fsPlainB fs)},closed:{b closed},unique:{b (uniqueB S)},probe:{b (probeAgreesB fs S)},macros:{b (sfsTame sfs)}"
     | _ => pure "err:root"
   | "mod.stat", [fs, p] => do
     let fs ← decFS fs
